@@ -340,6 +340,35 @@ func genLink(g *common.Gen, packets [][]byte) {
 		for j := 0; j < 12 && len(cand) > 0; j++ {
 			inner = append(inner, cand[(h*12+j)%len(cand)])
 		}
+		// type confusion of the PAYLOAD: any well-formed top-level TLV that is neither an Interest nor a Data —
+		// an LpPacket (with / without Fragment, nested once or twice), a Name, a MetaInfo, other element types —
+		// carried bare, as the Fragment of an LpPacket, and as the concatenation of reassembled fragments
+		confusion := [][]byte{
+			lpFrame(nil, nil, nil, nil, []byte{}),                                // 64 02 50 00
+			lpFrame(nil, nil, nil, nil, lpFrame(nil, nil, nil, nil, []byte{})),   // LpPacket in LpPacket
+			lpFrame(nil, nil, nil, nil, simpleInterest("a")),                     // LP-wrapped Interest as payload
+			lpFrame(nil, nil, nil, nil, nil),                                     // LpPacket without Fragment (idle)
+			lpFrame(p(1), p(0), p(1), nil, simpleData("a", []byte("x"))),
+			c13.TLV(7, c13.TLV(8, []byte("a"))),                                  // a Name
+			c13.TLV(0x14, c13.TLV(0x19, []byte{1})),                              // a MetaInfo
+			c13.TLV(0x50, simpleInterest("a")),                                   // a bare Fragment element
+			c13.TLV(uint64(common.Pick(r, kt)), r.Bytes(r.Intn(6))),
+			c13.TLV(5, c13.TLV(5, simpleInterest("a")[2:])),                      // an Interest nested one level deeper
+			c13.TLV(6, simpleData("a", []byte("x"))),                             // a Data nested one level deeper
+		}
+		for _, cp := range confusion {
+			g.Op("frame %s", common.Hex(cp))
+			g.Op("frame %s", common.Hex(lpFrame(nil, nil, nil, nil, cp)))
+			g.Op("frame %s", common.Hex(lpFrame(nil, nil, nil, nil, lpFrame(nil, nil, nil, nil, cp))))
+			// two fragments whose concatenation is the payload
+			if len(cp) >= 2 {
+				base := uint64(1000 + 10*len(cp))
+				cut := len(cp) / 2
+				g.Op("frame %s", common.Hex(lpFrame(p(base), p(0), p(2), nil, cp[:cut])))
+				g.Op("frame %s", common.Hex(lpFrame(p(base+1), p(1), p(2), nil, cp[cut:])))
+			}
+			g.Stat("frame-payload-confusion")
+		}
 		nOps := r.Range(8, 30)
 		for k := 0; k < nOps; k++ {
 			pkt := common.Pick(r, inner)
